@@ -296,6 +296,7 @@ class Algebra:
         self.fold_enabled = True
         self.ranges = {}         # sym name -> (lo, hi) range for witness search
         self.opaque_rules = {}   # fname -> rule(args) -> RF or None (axioms of an uninterpreted function)
+        self.integer_atoms = set()      # ids of symbols that stand for positive INTEGERS (n > 0 means n >= 1)
         self.threshold_hints = {}       # symbol name -> literals it is compared with through max / min (sampled on both sides)
         self.numeric_functions = {}     # fname -> fn(Decimal ...) -> Decimal: at witness points the atom takes the function's TRUE value
                                         # (needed where magnitudes matter: error bounds; identity tests do not need it)
@@ -985,6 +986,11 @@ class Algebra:
         shift x = bound + x'), known facts."""
         if not rf.num:
             return "0"
+        if self.integer_atoms and not rf.den and len(rf.num) == 2 and rf.num.get(ONE_MONO) == -1:
+            # n - 1 for a POSITIVE INTEGER n (a grid size, a count): n >= 1
+            (m, c), = [(m, c) for m, c in rf.num.items() if m != ONE_MONO]
+            if c == 1 and len(m) == 1 and m[0][1] == 1 and m[0][0] in self.integer_atoms and self.atoms[m[0][0]].positive:
+                return ">=0"
         inds = sorted(self.atoms_of(rf, "ind"))
         if inds and len(inds) <= 4 and rf.den:
             # Shannon split of the whole quotient (numerator and denominator jointly)
